@@ -608,6 +608,9 @@ def do_call(I, name, args, ins):
         return getattr(math, name)(*args)
     if name == 'verif_sym_double':
         nm = cstr(I, args[0]); return RV.var(nm, ad=True)
+    if name == 'verif_sym_i64': return z3.Int(cstr(I, args[0]))
+    if name == 'verif_out_i64':
+        I.outs[cstr(I, args[0])] = args[1]; return None
     if name == 'verif_out_double':
         I.outs[cstr(I, args[0])] = args[1]; return None
     if name == 'getenv': return NULL
